@@ -47,6 +47,9 @@ type Case struct {
 	N2        int    `json:"n2"`
 	Interval2 int64  `json:"interval2"`
 	Ticker2   string `json:"ticker2"`
+	// cache: a second cache alongside, with its own limit
+	Two    bool `json:"two"`
+	Limit2 int  `json:"limit2"`
 	// free: one script per goroutine (last element of an op = pause afterwards, in us), ticks
 	Threads     [][][]any `json:"threads"`
 	Ticks       int       `json:"ticks"`
@@ -55,13 +58,16 @@ type Case struct {
 
 // one entry per operation of the case
 type Step struct {
-	F    [][2]int64 `json:"f"`              // callbacks (key, value), sorted
-	R    int        `json:"r"`              // 0 nil, 1 ErrArgument, 2 ErrClosed / tick not taken, 3 panic
-	T    [][]any    `json:"t,omitempty"`    // cache/cleaner: wheel requests [kind, key, value, delay]
-	Keys []int64    `json:"keys,omitempty"` // cache: keys of c.data afterwards
-	Ret  []any      `json:"ret,omitempty"`  // cache: Get -> [v|null]; Take -> [v|null, loaderCalled]
-	C    [][2]int64 `json:"c,omitempty"`    // cleaner: task invocations (task id, how many-th call)
-	X    [][2]int64 `json:"x,omitempty"`    // two wheels: callbacks of the OTHER wheel during this operation
+	F     [][2]int64 `json:"f"`               // callbacks (key, value), sorted
+	R     int        `json:"r"`               // 0 nil, 1 ErrArgument, 2 ErrClosed / tick not taken, 3 panic
+	T     [][]any    `json:"t,omitempty"`     // cache/cleaner: wheel requests [kind, key, value, delay]
+	Keys  []int64    `json:"keys,omitempty"`  // cache: keys of c.data afterwards
+	Ret   []any      `json:"ret,omitempty"`   // cache: Get -> [v|null]; Take -> [v|null, loaderCalled]
+	C     [][2]int64 `json:"c,omitempty"`     // cleaner: task invocations (task id, how many-th call)
+	X     [][2]int64 `json:"x,omitempty"`     // two wheels / caches: callbacks of the OTHER one during this operation
+	XT    [][]any    `json:"xt,omitempty"`    // two caches: requests received by the OTHER cache's wheel
+	XKeys []int64    `json:"xkeys,omitempty"` // two caches: keys of the OTHER cache afterwards
+	Add   bool       `json:"add,omitempty"`
 }
 
 type Out struct {
@@ -472,79 +478,122 @@ func intVal(v any) int64 {
 	return -1
 }
 
+type cacheInst struct {
+	cache *collection.Cache
+	tap   *collection.VerifC12Tap
+	rec   *recorder
+	tk    *rticker
+}
+
+func newCacheInst(expireMs int64, limit int) (*cacheInst, error) {
+	ci := &cacheInst{rec: &recorder{keyOf: cacheKey, valOf: intVal}, tk: &rticker{c: make(chan time.Time)}}
+	var opts []collection.CacheOption
+	if limit != 0 {
+		opts = append(opts, collection.WithLimit(limit))
+	}
+	cache, err := collection.NewCache(time.Duration(expireMs)*time.Millisecond, opts...)
+	if err != nil {
+		return nil, err
+	}
+	ci.cache = cache
+	ci.tap, err = collection.VerifC12TapCache(cache, ci.tk, ci.rec)
+	return ci, err
+}
+
+func (ci *cacheInst) do(op []any, st *Step) {
+	cache := ci.cache
+	k := func() string { return "k" + strconv.FormatInt(num(op[1]), 10) }
+	switch op[0].(string) {
+	case "set":
+		cache.SetWithExpire(k(), num(op[2]), time.Duration(num(op[3])))
+	case "setd":
+		cache.Set(k(), num(op[2]))
+	case "get":
+		v, ok := cache.Get(k())
+		if ok {
+			st.Ret = []any{v}
+		} else {
+			st.Ret = []any{nil}
+		}
+	case "del":
+		cache.Del(k())
+	case "take":
+		called := false
+		v, err := cache.Take(k(), func() (any, error) {
+			called = true
+			if op[2] == nil {
+				return nil, errFetch
+			}
+			return num(op[2]), nil
+		})
+		if err != nil {
+			st.Ret = []any{nil, called}
+		} else {
+			st.Ret = []any{v, called}
+		}
+	case "tick":
+		ci.tk.c <- time.Now()
+	case "drain":
+		st.R = errClass(ci.tap.Drain(func(k, v any) { ci.rec.Fire(k, v) }))
+	}
+}
+
+func (ci *cacheInst) keys() []int64 {
+	ks := []int64{}
+	for _, s := range ci.tap.Keys() {
+		n, _ := cacheKey(s)
+		ks = append(ks, n)
+	}
+	sort.Slice(ks, func(i, j int) bool { return ks[i] < ks[j] })
+	return ks
+}
+
+// one cache, or two caches side by side using the same key strings (operations ["@", index, op...])
 func runCache(c Case) Out {
 	out := Out{ID: c.ID}
-	rec := &recorder{keyOf: cacheKey, valOf: intVal}
-	var opts []collection.CacheOption
-	if c.Limit != 0 {
-		opts = append(opts, collection.WithLimit(c.Limit))
-	}
-	cache, err := collection.NewCache(time.Duration(c.ExpireMs)*time.Millisecond, opts...)
+	c0, err := newCacheInst(c.ExpireMs, c.Limit)
 	if err != nil {
 		out.Err = err.Error()
 		return out
 	}
-	tk := &rticker{c: make(chan time.Time)}
-	tap, err := collection.VerifC12TapCache(cache, tk, rec)
-	if err != nil {
-		out.Err = err.Error()
-		return out
+	defer c0.tap.Stop()
+	cs := []*cacheInst{c0}
+	if c.Two {
+		c1, err := newCacheInst(c.ExpireMs, c.Limit2)
+		if err != nil {
+			out.Err = err.Error()
+			return out
+		}
+		defer c1.tap.Stop()
+		cs = append(cs, c1)
 	}
-	defer tap.Stop()
-	out.N = tap.NumSlots
-	out.Interval = int64(tap.Interval)
+	out.N = c0.tap.NumSlots
+	out.Interval = int64(c0.tap.Interval)
 	if !hx.Quiesce(busy, 30*time.Second) {
 		out.Err = "the replaced wheel did not stop"
 		return out
 	}
 	for _, op := range c.Ops {
-		k := func() string { return "k" + strconv.FormatInt(num(op[1]), 10) }
-		st := Step{}
-		switch op[0].(string) {
-		case "set":
-			cache.SetWithExpire(k(), num(op[2]), time.Duration(num(op[3])))
-		case "setd":
-			cache.Set(k(), num(op[2]))
-		case "get":
-			v, ok := cache.Get(k())
-			if ok {
-				st.Ret = []any{v}
-			} else {
-				st.Ret = []any{nil}
-			}
-		case "del":
-			cache.Del(k())
-		case "take":
-			called := false
-			v, err := cache.Take(k(), func() (any, error) {
-				called = true
-				if op[2] == nil {
-					return nil, errFetch
-				}
-				return num(op[2]), nil
-			})
-			if err != nil {
-				st.Ret = []any{nil, called}
-			} else {
-				st.Ret = []any{v, called}
-			}
-		case "tick":
-			tk.c <- time.Now()
-		case "drain":
-			st.R = errClass(tap.Drain(func(k, v any) { rec.Fire(k, v) }))
+		target := 0
+		if op[0].(string) == "@" {
+			target = int(num(op[1]))
+			op = op[2:]
 		}
+		st := Step{}
+		cs[target].do(op, &st)
 		if !hx.Quiesce(busy, 30*time.Second) {
 			out.Err = "wheel callbacks did not quiesce"
 			return out
 		}
-		st.T = rec.takeOps()
-		st.F = rec.fs.take()
-		st.Keys = []int64{}
-		for _, s := range tap.Keys() {
-			n, _ := cacheKey(s)
-			st.Keys = append(st.Keys, n)
+		st.T = cs[target].rec.takeOps()
+		st.F = cs[target].rec.fs.take()
+		st.Keys = cs[target].keys()
+		if len(cs) > 1 {
+			o := cs[1-target]
+			st.XT = o.rec.takeOps()
+			st.X = o.rec.fs.take()
+			st.XKeys = o.keys()
 		}
-		sort.Slice(st.Keys, func(i, j int) bool { return st.Keys[i] < st.Keys[j] })
 		out.Obs = append(out.Obs, st)
 	}
 	return out
@@ -584,7 +633,12 @@ func runCleaner(c Case) Out {
 		switch op[0].(string) {
 		case "add":
 			// a task that fails op[2] times, then succeeds; op[1] identifies it
+			// op[3]: which cache key the task is about (tasks of different stores may name the same key)
 			id, fails := num(op[1]), num(op[2])
+			kid := id
+			if len(op) > 3 {
+				kid = num(op[3])
+			}
 			cnt := int64(0)
 			rcache.AddCleanTask(func() error {
 				cmu.Lock()
@@ -596,7 +650,7 @@ func runCleaner(c Case) Out {
 					return errFetch
 				}
 				return nil
-			}, "key"+strconv.FormatInt(id, 10))
+			}, "key"+strconv.FormatInt(kid, 10))
 		case "tick":
 			tk.c <- time.Now()
 		}
